@@ -10,10 +10,31 @@ Extracted:
   gen_emitted          (function code, code string literal passed to FormatError::new inside that function) pairs
   gen_doc_validation   E1xxx codes that have a heading in docs/src/concepts/pragmatic/errors/index.md (page order)
   gen_doc_generic      E0xxx codes with a heading on that page
-usage: rules2coq.py [repo] [outdir]"""
-import os, re, sys
+  gen_rule_hash        (code, fingerprint) of every check_eNNNN_* function: sha256 (first 48 bits) of its signature + body with comments
+                       removed, white space collapsed and every string literal other than an "Ennnn" code blanked (message texts are
+                       not part of the fingerprint)
+  gen_helper_hash      (name, fingerprint) of every other function defined in validation/*.rs (validate_*, common.rs helpers,
+                       ValidationContext::new / validate / tasks / jobs / vehicles, is_reserved_job_id), in file / source order
+  gen_rule_uses        (code, sorted list of the helper predicates the rule function mentions): names of functions defined in
+                       validation/*.rs plus the vocabulary EXTERNAL_HELPERS (parse_time, parse_time_safe, MultiDimLoad, FormatError, ..)
+The fingerprints and helper lists are compared with the PINNED tables coq/theories/Model/RulePins.v (the version of the Rust rules
+the hand-written model Model/Validation.v + Model/ValidationX.v was written against) by the theorem C10_rule_fingerprints: a rule
+that is added, removed, renumbered, or whose code (or the code of a helper it uses) changes breaks a proof obligation.  After a
+deliberate change of /repo (a `fix:` commit in validation/*.rs) the model is updated by hand and the pins are refreshed with
+`tools/rules2coq.py --pin` (writes Model/RulePins.v from the current source).
+
+Still trusted: the regex / brace-matching extraction below (one `fn` = from `fn name` to the matching `}`; macros and nested closures
+stay inside their function), the normalisation (comments, white space, message texts), code outside validation/*.rs (the reader
+behind validation is tied by the correspondence streams only), and that the hand-written model says what the pinned text says
+(that is what the correspondence check is for).
+usage: rules2coq.py [repo] [outdir] | rules2coq.py --pin [repo]"""
+import hashlib, os, re, sys
 
 GROUPS = ['jobs', 'vehicles', 'objectives', 'routing', 'relations']
+HELPER_FILES = ['mod', 'common'] + GROUPS
+EXTERNAL_HELPERS = ['parse_time', 'parse_time_safe', 'MultiDimLoad', 'FormatError', 'combine_error_results', 'HashSet', 'HashMap',
+                    'collect_group_by_key', 'discriminant', 'Location', 'Clustering', 'VehicleBreak', 'VehicleOptionalBreakTime',
+                    'VehicleRequiredBreakTime', 'all_tasks_iter', 'max_matrix_index', 'has_coordinates', 'has_indices', 'unique']
 
 
 def _strip_comments(src):
@@ -40,6 +61,57 @@ def _fn_bodies(src):
         yield m.group(1), src[i:k]
 
 
+def _fn_texts(src):
+    """yield (name, text) for every `fn name(..) .. { body }`: text = signature + body"""
+    for m in re.finditer(r'\bfn\s+([A-Za-z0-9_]+)\s*(?:<[^>{]*>)?\s*\(', src):
+        depth, j = 1, m.end()
+        while depth and j < len(src):
+            depth += {'(': 1, ')': -1}.get(src[j], 0)
+            j += 1
+        i = src.find('{', j)
+        semi = src.find(';', j)
+        if i < 0 or (0 <= semi < i):
+            continue
+        depth, k = 1, i + 1
+        while depth and k < len(src):
+            depth += {'{': 1, '}': -1}.get(src[k], 0)
+            k += 1
+        yield m.group(1), src[m.start():k]
+
+
+def _normalise(text):
+    text = re.sub(r'"((?:[^"\\]|\\.)*)"', lambda m: m.group(0) if re.fullmatch(r'E\d{4}', m.group(1)) else '""', text)
+    return re.sub(r'\s+', ' ', text).strip()
+
+
+def fingerprint(text):
+    return int(hashlib.sha256(_normalise(text).encode()).hexdigest()[:12], 16)
+
+
+def extract_fingerprints(repo):
+    vdir = os.path.join(repo, 'vrp-pragmatic', 'src', 'validation')
+    fns = []                       # (file, name, text) in file / source order
+    for f in HELPER_FILES:
+        src = _strip_comments(open(os.path.join(vdir, f + '.rs')).read())
+        src = re.sub(r'#\[cfg\(test\)\][^;{]*;', '', src)
+        for name, text in _fn_texts(src):
+            fns.append((f, name, text))
+    defined = [name for _, name, _ in fns]
+    vocab = set(defined) | set(EXTERNAL_HELPERS)
+    rule_hash, helper_hash, rule_uses = [], [], []
+    for f, name, text in fns:
+        m = re.match(r'check_e(\d{4})', name)
+        if m:
+            code = int(m.group(1))
+            rule_hash.append((code, fingerprint(text)))
+            body = text[text.find('{'):]
+            used = sorted(set(w for w in re.findall(r'[A-Za-z_][A-Za-z0-9_]*', _normalise(body)) if w in vocab and w != name))
+            rule_uses.append((code, used))
+        else:
+            helper_hash.append(('%s::%s' % (f, name), fingerprint(text)))
+    return {'rule_hash': rule_hash, 'helper_hash': helper_hash, 'rule_uses': rule_uses}
+
+
 def extract(repo):
     vdir = os.path.join(repo, 'vrp-pragmatic', 'src', 'validation')
     info = {'groups': {}, 'emitted': []}
@@ -64,6 +136,7 @@ def extract(repo):
     heads = [int(x) for x in re.findall(r'^#{2,6}\s+E(\d{4})\s*$', doc, flags=re.M)]
     info['doc_validation'] = [c for c in heads if 1000 <= c < 2000]
     info['doc_generic'] = [c for c in heads if c < 1000]
+    info.update(extract_fingerprints(repo))
     return info
 
 
@@ -81,8 +154,34 @@ def render(info):
     out.append('Definition gen_emitted : list (Z * Z) := [%s].' % '; '.join('(%d, %d)' % p for p in info['emitted']))
     out.append('Definition gen_doc_validation : list Z := %s.' % zl(info['doc_validation']))
     out.append('Definition gen_doc_generic : list Z := %s.' % zl(info['doc_generic']))
+    out += render_fingerprints(info, 'gen')
     out.append('')
     return '\n'.join(out)
+
+
+def sl(xs):
+    return '[' + '; '.join('"%s"' % x for x in xs) + ']%string'
+
+
+def render_fingerprints(info, prefix):
+    return ['Definition %s_rule_hash : list (Z * Z) := [%s].' % (prefix, '; '.join('(%d, %d)' % p for p in info['rule_hash'])),
+            'Definition %s_helper_hash : list (string * Z) := [%s].' % (prefix, '; '.join('("%s"%%string, %d)' % p for p in info['helper_hash'])),
+            'Definition %s_rule_uses : list (Z * list string) := [%s].' % (prefix, '; '.join('(%d, %s)' % (c, sl(u)) for c, u in info['rule_uses']))]
+
+
+def pin(repo, path):
+    """write the pinned tables (Model/RulePins.v) from the current source: a deliberate act after the model was brought in line with /repo"""
+    info = extract_fingerprints(repo)
+    commit = os.popen('git -C %s rev-parse --short HEAD 2>/dev/null' % repo).read().strip()
+    out = ['(* C10 — PINNED fingerprints of vrp-pragmatic/src/validation/*.rs: the version of the Rust rule functions and of their helpers',
+           '   that Model/Validation.v and Model/ValidationX.v were written against (written by `tools/rules2coq.py --pin`, /repo at %s).' % commit,
+           '   Compared with the regenerated Generated/RuleTable.v by the theorem C10_rule_fingerprints.  No proofs in this file. *)',
+           'From VRP Require Import Base.Tac.', 'From Coq Require Import String.', '']
+    out += render_fingerprints(info, 'pinned')
+    out.append('')
+    with open(path, 'w') as fh:
+        fh.write('\n'.join(out))
+    return path
 
 
 def generate(repo, outdir):
@@ -98,6 +197,10 @@ def generate(repo, outdir):
 
 
 if __name__ == '__main__':
+    if len(sys.argv) > 1 and sys.argv[1] == '--pin':
+        repo = sys.argv[2] if len(sys.argv) > 2 else '/repo'
+        print(pin(repo, os.path.join(os.path.dirname(os.path.dirname(os.path.abspath(__file__))), 'coq', 'theories', 'Model', 'RulePins.v')))
+        sys.exit(0)
     repo = sys.argv[1] if len(sys.argv) > 1 else '/repo'
     outdir = sys.argv[2] if len(sys.argv) > 2 else os.path.join(os.path.dirname(os.path.dirname(os.path.abspath(__file__))), 'coq', 'theories', 'Generated')
     print(generate(repo, outdir))
